@@ -209,3 +209,250 @@ Proof.
     + destruct (proj2 (H x) (or_intror Hx)) as [E|?]; [|assumption].
       subst. apply Hb in Hx. unfold slt in Hx. rewrite str_ltb_irrefl in Hx. discriminate.
 Qed.
+
+(* ---------- prefixes ---------- *)
+Lemma has_prefix_app : forall p s, has_prefix p (p ++ s) = true.
+Proof. induction p as [|x p IH]; intro s; simpl; [reflexivity|]. rewrite Ascii.eqb_refl. apply IH. Qed.
+Lemma drop_prefix_app : forall p s, drop_prefix p (p ++ s) = s.
+Proof. induction p as [|x p IH]; intro s; simpl; [destruct s; reflexivity|]. apply IH. Qed.
+Lemma trim_prefix_app : forall p s, trim_prefix p (p ++ s) = s.
+Proof. intros. unfold trim_prefix. rewrite has_prefix_app. apply drop_prefix_app. Qed.
+Lemma has_prefix_iff : forall p s, has_prefix p s = true <-> exists r, s = p ++ r.
+Proof.
+  induction p as [|x p IH]; intro s; simpl.
+  - split; [intros _; exists s; reflexivity | reflexivity].
+  - destruct s as [|y s]; [split; [discriminate | intros [r H]; discriminate]|].
+    rewrite andb_true_iff, Ascii.eqb_eq, IH. split.
+    + intros [-> [r ->]]. exists r. reflexivity.
+    + intros [r H]. inversion H; subst. split; [reflexivity | exists r; reflexivity].
+Qed.
+
+Lemma bytes_ltb_app_common : forall p a b, bytes_ltb (p ++ a) (p ++ b) = bytes_ltb a b.
+Proof. induction p as [|x p IH]; intros a b; simpl; [reflexivity|]. rewrite byte_ltb_irrefl. apply IH. Qed.
+Lemma bytes_ltb_prefix_nlt : forall p a, bytes_ltb (p ++ a) p = false.
+Proof. induction p as [|x p IH]; intro a; simpl; [destruct a; reflexivity|]. rewrite byte_ltb_irrefl. apply IH. Qed.
+Lemma bytes_ltb_app_l : forall x y u v, List.length x = List.length y ->
+  bytes_ltb x y = true -> bytes_ltb (x ++ u) (y ++ v) = true.
+Proof.
+  induction x as [|a x IH]; intros [|b y] u v L H; simpl in *; try discriminate.
+  destruct (byte_ltb a b); [reflexivity|]. destruct (byte_ltb b a); [discriminate|].
+  apply IH; [congruence | exact H].
+Qed.
+
+(* ---------- split / join ---------- *)
+Definition no_byte (c : ascii) (e : bytes) : Prop := mem_byte c e = false.
+
+Lemma mem_byte_In : forall c l, mem_byte c l = true <-> In c l.
+Proof.
+  induction l as [|y t IH]; simpl; [split; [discriminate|tauto]|].
+  rewrite orb_true_iff, IH, Ascii.eqb_eq. split; intros [H|H]; auto.
+Qed.
+Lemma mem_byte_app : forall c a b, mem_byte c (a ++ b) = mem_byte c a || mem_byte c b.
+Proof. induction a as [|x a IH]; intro b; simpl; [reflexivity|]. rewrite IH. apply orb_assoc. Qed.
+
+Lemma split_on_none : forall c e, no_byte c e -> split_on c e = [e].
+Proof.
+  unfold no_byte. induction e as [|x e IH]; intro H; simpl in *; [reflexivity|].
+  apply orb_false_iff in H. destruct H as [H1 H2]. rewrite Ascii.eqb_sym, H1. rewrite (IH H2). reflexivity.
+Qed.
+Lemma split_on_app : forall c e r, no_byte c e -> split_on c (e ++ c :: r) = e :: split_on c r.
+Proof.
+  unfold no_byte. induction e as [|x e IH]; intros r H; simpl in *.
+  - rewrite Ascii.eqb_refl. reflexivity.
+  - apply orb_false_iff in H. destruct H as [H1 H2]. rewrite Ascii.eqb_sym, H1. rewrite (IH r H2). reflexivity.
+Qed.
+Lemma split_join : forall c es, es <> [] -> Forall (no_byte c) es -> split_on c (join [c] es) = es.
+Proof.
+  induction es as [|x t IH]; intros N F; [congruence|].
+  inversion F as [|? ? Fx Ft]; subst. destruct t as [|y u].
+  - simpl. apply split_on_none. exact Fx.
+  - change (join [c] (x :: y :: u)) with (x ++ [c] ++ join [c] (y :: u)). simpl app.
+    rewrite split_on_app by exact Fx. f_equal. apply IH; [discriminate | exact Ft].
+Qed.
+Lemma join_app_split : forall c x t, t <> [] -> join [c] (x :: t) = x ++ c :: join [c] t.
+Proof. intros c x [|y u] N; [congruence|]. reflexivity. Qed.
+
+(* ---------- filepath.Clean on rooted paths made of ordinary elements ---------- *)
+Definition safe_elem (e : bytes) : Prop :=
+  e <> [] /\ no_byte slash e /\ is_dot e = false /\ is_dotdot e = false.
+Definition safe_or_empty (e : bytes) : Prop := e = [] \/ safe_elem e.
+Definition nonempty (e : bytes) : bool := match e with [] => false | _ => true end.
+
+Lemma clean_elems_safe : forall rooted es stack,
+  Forall safe_or_empty es -> clean_elems rooted stack es = rev stack ++ filter nonempty es.
+Proof.
+  induction es as [|e es IH]; intros stack F; simpl.
+  - rewrite app_nil_r. reflexivity.
+  - inversion F as [|? ? Fe Fs]; subst. destruct Fe as [->|[Hn [Hs [Hd Hdd]]]].
+    + simpl. apply IH. exact Fs.
+    + destruct e as [|c e]; [congruence|]. rewrite Hd, Hdd. simpl nonempty. cbv iota.
+      rewrite IH by exact Fs. simpl. rewrite <- app_assoc. reflexivity.
+Qed.
+
+Lemma clean_rooted : forall es, Forall safe_or_empty es ->
+  clean (slash :: join [slash] es) = slash :: join [slash] (filter nonempty es).
+Proof.
+  intros es F. unfold clean. rewrite Ascii.eqb_refl.
+  change (split_on slash (slash :: join [slash] es)) with
+    (let r := split_on slash (join [slash] es) in
+     if Ascii.eqb slash slash then [] :: r else match r with h :: r' => (slash :: h) :: r' | [] => [[slash]] end).
+  rewrite Ascii.eqb_refl. cbv zeta.
+  destruct es as [|e0 es'].
+  - simpl. reflexivity.
+  - rewrite split_join; [|discriminate|].
+    + change (clean_elems true [] ([] :: e0 :: es')) with (clean_elems true [] (e0 :: es')).
+      rewrite clean_elems_safe by exact F. reflexivity.
+    + rewrite Forall_forall in F |- *. intros e He. destruct (F e He) as [->|[_ [Hs _]]]; [reflexivity | exact Hs].
+Qed.
+
+(* ---------- hexadecimal ---------- *)
+Local Open Scope N_scope.
+
+Lemma N_of_ascii_of_N : forall v, v < 256 -> N_of_ascii (ascii_of_N v) = v.
+Proof. intros v H. apply N_ascii_embedding. exact H. Qed.
+
+Lemma hex_digit_val : forall d, d < 16 -> N_of_ascii (hex_digit d) = if d <? 10 then 48 + d else 87 + d.
+Proof.
+  intros d H. unfold hex_digit. apply N_of_ascii_of_N.
+  destruct (d <? 10) eqn:E; [apply N.ltb_lt in E|apply N.ltb_ge in E]; lia.
+Qed.
+
+Lemma digit_val_hex_digit : forall d, d < 16 -> digit_val (hex_digit d) = Some d.
+Proof.
+  intros d H. unfold digit_val. rewrite hex_digit_val by exact H.
+  destruct (d <? 10) eqn:E.
+  - apply N.ltb_lt in E.
+    assert (A : (48 <=? 48 + d) && (48 + d <=? 57) = true).
+    { apply andb_true_iff. split; apply N.leb_le; lia. }
+    rewrite A. f_equal. lia.
+  - apply N.ltb_ge in E.
+    assert (A : (48 <=? 87 + d) && (87 + d <=? 57) = false).
+    { apply andb_false_iff. right. apply N.leb_gt. lia. }
+    rewrite A.
+    (* 87 + d is in 97..102: bit 5 is already set *)
+    assert (L : N.lor (87 + d) 32 = 87 + d).
+    { assert (D : d = 10 \/ d = 11 \/ d = 12 \/ d = 13 \/ d = 14 \/ d = 15) by lia.
+      destruct D as [->|[->|[->|[->|[->| ->]]]]]; reflexivity. }
+    rewrite L.
+    assert (B : (97 <=? 87 + d) && (87 + d <=? 122) = true).
+    { apply andb_true_iff. split; apply N.leb_le; lia. }
+    rewrite B. f_equal. lia.
+Qed.
+
+Lemma hex_digit_mono : forall a b, a < b -> b < 16 -> byte_ltb (hex_digit a) (hex_digit b) = true.
+Proof.
+  intros a b H1 H2. unfold byte_ltb. rewrite !hex_digit_val by lia. apply N.ltb_lt.
+  destruct (a <? 10) eqn:Ea; destruct (b <? 10) eqn:Eb;
+    try apply N.ltb_lt in Ea; try apply N.ltb_ge in Ea; try apply N.ltb_lt in Eb; try apply N.ltb_ge in Eb; lia.
+Qed.
+
+Lemma hex_digit_plain : forall d, d < 16 -> hex_digit d <> slash /\ hex_digit d <> dot.
+Proof.
+  intros d H. split; intro E; apply (f_equal N_of_ascii) in E; rewrite hex_digit_val in E by exact H;
+    destruct (d <? 10) eqn:Ed; try apply N.ltb_lt in Ed; try apply N.ltb_ge in Ed;
+    (change (N_of_ascii slash) with 47 in E || change (N_of_ascii dot) with 46 in E); lia.
+Qed.
+
+Lemma hexw_length : forall w n, List.length (hexw w n) = w.
+Proof. induction w as [|w IH]; intro n; simpl; [reflexivity|]. rewrite app_length, IH. simpl. lia. Qed.
+
+Lemma hexw_chars : forall w n c, In c (hexw w n) -> c <> slash /\ c <> dot.
+Proof.
+  induction w as [|w IH]; intros n c H; simpl in H; [contradiction|].
+  apply in_app_or in H. destruct H as [H|[<-|[]]]; [eapply IH; exact H|].
+  apply hex_digit_plain. apply N.mod_lt. discriminate.
+Qed.
+
+Lemma parse_hex_acc_app : forall a b acc,
+  parse_hex_acc acc (a ++ b) = match parse_hex_acc acc a with Some acc' => parse_hex_acc acc' b | None => None end.
+Proof.
+  induction a as [|c a IH]; intros b acc; simpl; [reflexivity|].
+  destruct (digit_val c) as [d|]; [|reflexivity].
+  destruct (d <? 16); [|reflexivity].
+  destruct (acc * 16 + d <? two64N); [apply IH | reflexivity].
+Qed.
+
+Lemma pow16_succ : forall w, 16 ^ N.of_nat (S w) = 16 * 16 ^ N.of_nat w.
+Proof. intro w. rewrite Nnat.Nat2N.inj_succ, N.pow_succ_r'. reflexivity. Qed.
+
+Lemma parse_hexw : forall w n acc,
+  acc * 16 ^ N.of_nat w + n mod 16 ^ N.of_nat w < two64N ->
+  parse_hex_acc acc (hexw w n) = Some (acc * 16 ^ N.of_nat w + n mod 16 ^ N.of_nat w).
+Proof.
+  induction w as [|w IH]; intros n acc H.
+  - simpl. rewrite N.mod_1_r. f_equal. lia.
+  - cbn [hexw]. rewrite parse_hex_acc_app.
+    assert (P : 16 ^ N.of_nat w <> 0) by (apply N.pow_nonzero; discriminate).
+    assert (M : n mod 16 ^ N.of_nat (S w) = n mod 16 + 16 * ((n / 16) mod 16 ^ N.of_nat w)).
+    { rewrite pow16_succ. apply N.mod_mul_r; [discriminate | exact P]. }
+    rewrite pow16_succ in H |- *. rewrite pow16_succ in M. rewrite M in H |- *.
+    assert (D : n mod 16 < 16) by (apply N.mod_lt; discriminate).
+    set (Pw := 16 ^ N.of_nat w) in *. set (q := (n / 16) mod Pw) in *. set (m := n mod 16) in *.
+    assert (B : acc * Pw + q < two64N).
+    { assert (acc * Pw + q <= acc * (16 * Pw) + (m + 16 * q)); [|lia].
+      replace (acc * (16 * Pw)) with (16 * (acc * Pw)) by lia. lia. }
+    rewrite (IH (n / 16) acc B). fold q.
+    cbn [parse_hex_acc]. rewrite digit_val_hex_digit by exact D.
+    apply N.ltb_lt in D. rewrite D.
+    assert (V : (acc * Pw + q) * 16 + m = acc * (16 * Pw) + (m + 16 * q)) by lia.
+    rewrite V.
+    assert (Lt : acc * (16 * Pw) + (m + 16 * q) <? two64N = true) by (apply N.ltb_lt; exact H).
+    rewrite Lt. reflexivity.
+Qed.
+
+Lemma hexw_lt : forall w a b, a < b -> b < 16 ^ N.of_nat w -> bytes_ltb (hexw w a) (hexw w b) = true.
+Proof.
+  induction w as [|w IH]; intros a b H1 H2.
+  - simpl in H2. lia.
+  - cbn [hexw]. rewrite pow16_succ in H2.
+    assert (Da := N.div_mod a 16 ltac:(discriminate)). assert (Db := N.div_mod b 16 ltac:(discriminate)).
+    assert (Ma : a mod 16 < 16) by (apply N.mod_lt; discriminate).
+    assert (Mb : b mod 16 < 16) by (apply N.mod_lt; discriminate).
+    assert (Le : a / 16 <= b / 16) by (apply N.div_le_mono; [discriminate | lia]).
+    destruct (N.eq_dec (a / 16) (b / 16)) as [E|NE].
+    + rewrite E, bytes_ltb_app_common. simpl.
+      rewrite hex_digit_mono; [reflexivity | lia | exact Mb].
+    + apply bytes_ltb_app_l; [rewrite !hexw_length; reflexivity|].
+      apply IH; [lia|]. apply N.div_lt_upper_bound; [discriminate | exact H2].
+Qed.
+
+Lemma parse_trim_zero : forall s, parse_hex_acc 0 (trim_left (s2l "0") s) = parse_hex_acc 0 s.
+Proof.
+  induction s as [|c s IH]; [reflexivity|].
+  cbn [trim_left]. destruct (mem_byte c (s2l "0")) eqn:E; [|reflexivity].
+  rewrite IH. change (s2l "0") with ["0"%char] in E. simpl in E. rewrite orb_false_r in E.
+  apply Ascii.eqb_eq in E. subst c. reflexivity.
+Qed.
+
+Lemma two64_pow : two64N = 16 ^ N.of_nat 16.
+Proof. reflexivity. Qed.
+
+(* strconv.ParseUint(TrimLeft(%016x, "0"), 16, 64) inverts %016x on 1 .. 2^64-1 *)
+Lemma parse_hex16 : forall n, 1 <= n -> n < two64N ->
+  parse_hex64 (trim_left (s2l "0") (hex16 n)) = Some n.
+Proof.
+  intros n H1 H2.
+  assert (P : parse_hex_acc 0 (trim_left (s2l "0") (hex16 n)) = Some n).
+  { rewrite parse_trim_zero. unfold hex16. rewrite parse_hexw.
+    - f_equal. rewrite N.mul_0_l, N.add_0_l. apply N.mod_small. rewrite <- two64_pow. exact H2.
+    - rewrite N.mul_0_l, N.add_0_l. rewrite <- two64_pow.
+      eapply N.le_lt_trans; [apply N.mod_le; discriminate | exact H2]. }
+  unfold parse_hex64. destruct (trim_left (s2l "0") (hex16 n)) as [|c t] eqn:E.
+  - simpl in P. inversion P. lia.
+  - exact P.
+Qed.
+
+Lemma hex16_lt : forall a b, a < b -> b < two64N -> bytes_ltb (hex16 a) (hex16 b) = true.
+Proof. intros. unfold hex16. apply hexw_lt; [assumption | rewrite <- two64_pow; assumption]. Qed.
+
+Lemma hex16_safe : forall n, safe_elem (hex16 n).
+Proof.
+  intro n. unfold safe_elem, hex16. pose proof (hexw_length 16 n) as L.
+  split; [|split; [|split]].
+  - intro E. rewrite E in L. discriminate.
+  - unfold no_byte. destruct (mem_byte slash (hexw 16 n)) eqn:E; [|reflexivity].
+    apply mem_byte_In in E. apply hexw_chars in E. destruct E as [E _]. congruence.
+  - unfold is_dot. apply bytes_eqb_neq. intro E. rewrite E in L. discriminate.
+  - unfold is_dotdot. apply bytes_eqb_neq. intro E. rewrite E in L. discriminate.
+Qed.
+Local Close Scope N_scope.
